@@ -2794,13 +2794,13 @@ func (pc *persistConn) readLoop() {
 			resp.ContentLength = -1
 			resp.Uncompressed = true
 		} else if pc.t.AutoDecompression {
-			contentEncoding := resp.Header.Get("Content-Encoding")
-			if contentEncoding != "" {
+			// Leave the response alone unless the encoding is one we can decode.
+			if cr := compress.NewCompressReader(resp.Body, resp.Header.Get("Content-Encoding")); cr != nil {
 				resp.Header.Del("Content-Encoding")
 				resp.Header.Del("Content-Length")
 				resp.ContentLength = -1
 				resp.Uncompressed = true
-				resp.Body = compress.NewCompressReader(resp.Body, contentEncoding)
+				resp.Body = cr
 			}
 		}
 
